@@ -26,6 +26,37 @@ CHECKS = {
 }
 
 
+CHECKS["C12"] = dict(
+    engine="writers-replay",
+    technique="TLA+ declarative counters (Summarize.tla SumDecl) vs transcription of the code's indicator machine, "
+              "model-checked by TLC over all sequential streams of small universes (MC_Summarize); TLC-generated "
+              "streams replayed into the real writer::Summarize; its counters, scenario statistics and write log "
+              "validated by TLC against the declarative counters (Trace_Summarize.tla)",
+    level="model_checking",
+    text="TLC shows that the code's indicator machine agrees with the declarative, last-attempt-based counters on "
+         "every sequential stream of the bounded universes except in three named shapes (F1, F4a, F4b: recorded "
+         "known findings); the real Summarize is then fed TLC-generated streams (with replays after Finished) and "
+         "every getter, the scenario statistics and the position of the single summary write are judged by the "
+         "same declarative definition.",
+    design_ref="DESIGN.md §3 C12",
+    note="bounded universes; simulation-mode sampling for replay; features/rules counters read from the summary text",
+)
+CHECKS["C13"] = dict(
+    engine="writers-replay",
+    technique="TLA+ stream-transformer model of FailOnSkipped/Repeat/Tee/Or/discard (Combinators.tla); TLC enumerates "
+              "all input sequences up to a bound over an event alphabet; each is replayed into every nesting of the "
+              "real combinators; what the recording leaves received and the combined Stats are validated by TLC "
+              "(Trace_Combinators.tla)",
+    level="model_checking",
+    text="The wrappers are stateless per event, so inputs are ALL sequences (not only contract-abiding ones) up to "
+         "length 3 (quick) / 4 (thorough) over a 16-symbol alphabet covering every tag placement of @allow.skipped, "
+         "background and own steps, retried and final failures, hooks, parser errors, arbitrary writes and "
+         "run-Finished, plus sampled longer ones; eleven nestings of the real combinators are compared leaf by leaf "
+         "and getter by getter with the TLA+ model.",
+    design_ref="DESIGN.md §3 C13",
+    note="alphabet-bounded inputs; nestings limited to those that type-check; leaf writer counts its own Stats",
+)
+
 RUNNER_TECH = ("TLA+ model of the executor design (Runner.tla) model-checked by TLC against the property "
                "monitor RunnerObs.tla; the real runner::Basic driven through a gate-controlled test double; "
                "its hooked linearization points validated by TLC against the same monitor (Trace_Runner.tla)")
